@@ -92,6 +92,8 @@ def pool(rng, scratch):
         items.append(("ns-variable-%s" % nm, {"text": H + "float %s = 0.5\nfor int i in 0:2\n    Sgate(%s * i) | i\n" % (nm, nm)}))
         items.append(("ns-regarg-%s" % nm, {"text": H + "MeasureX | 0\nZgate(q0 * 2, %s=q0 + 1) | 1\n" % nm}))
     items.append(("ns-arith", {"text": H + "float u = 2 ** 3 / 4 - 1\nOp(sin(u) + pi, sqrt(2) * u, -u) | 0\nMeasureX | 0\nZgate(2 * q0 + 1) | 1\nSgate({w} / 3 - 1) | 2\n"}))
+    items.append(("empty-brackets-a", {"text": "name ea\nversion 1.0\ntarget X ()\nVac() | 0\nMeasureFock() | 1\n"}))
+    items.append(("empty-brackets-b", {"text": "name eb\nversion 1.0\ntype tdm ()\nMeasureHomodyne() | 0\nVac() | [1, 2]\n"}))
     items.append(("op-named-like-include", {"text": H + "Sub(x=1) | [0, 1]\nsub(a=1) | [2, 3]\n"}))
     for i in range(10):
         g = Gen(rng, allow_params=(i % 2 == 0))
@@ -150,7 +152,7 @@ def run(tier, seed):
                 for b in items:
                     hists.append([a, b])
         # always: all ordered pairs (and some triples) among the entries that involve files / includes / names of includes
-        special = [it for it in items if it[0].startswith(("include-", "relative-include-", "op-named-like", "regref-"))]
+        special = [it for it in items if it[0].startswith(("include-", "relative-include-", "op-named-like", "regref-", "empty-brackets-"))]
         num = [it for it in items if it[0].startswith("numeric-")] + [it for it in items if it[0] in ("binds-n", "cast-error", "fails-after-binding-n")] \
             + [it for it in items if it[0].startswith(("cast-error-computed", "declares-"))]
         for a in num:
